@@ -49,11 +49,15 @@ theorem comp_length (lit : Nat → V) (entry : Nat → Nat) (s : Stmt V) (base c
   | loop body ih => simp [comp, size, ih, nopI] <;> omega
   | _ => simp [comp, size]
 
-/-- the machine state `st` is the source state `σ` at line `pc`, except possibly for `ra` (which a `jal` overwrites and a
-    well-formed program never reads) -/
-structure At (st : St Reg V) (σ : SSt V) (pc : Nat) : Prop where
-  regs : ∀ r, r ≠ (Special.ra : Reg) → st.regs r = σ.regs r
-  mem : st.mem = σ.mem
+/-- the machine state `st` is the source state `σ` at line `pc` and call depth `d`: same registers except `ra` / `sp` (which
+    calls and the call stack use and a well-formed program never touches), `sp = d`, the cells below `d` hold the saved return
+    addresses `stk`, the cells from `lo` on are the program's memory -/
+structure At (sem : Sem V) (lo : Nat) (st : St Reg V) (σ : SSt V) (pc d : Nat) (stk : List V) : Prop where
+  regs : ∀ r, r ≠ (Special.ra : Reg) → r ≠ (Special.sp : Reg) → st.regs r = σ.regs r
+  sp : st.regs Special.sp = sem.ofNat d
+  len : stk.length = d
+  stack : ∀ i, i < d → st.mem i = stk.getD i (sem.ofNat 0)
+  mem : ∀ n, lo ≤ n → st.mem n = σ.mem n
   pc : st.pc = pc
   trace : st.trace = σ.trace
   halted : st.halted = false
@@ -62,7 +66,8 @@ structure At (st : St Reg V) (σ : SSt V) (pc : Nat) : Prop where
 def mk (σ : SSt V) (pc : Nat) : St Reg V :=
   { regs := σ.regs, mem := σ.mem, pc := pc, trace := σ.trace, halted := false }
 
-theorem at_mk (σ : SSt V) (pc : Nat) : At (mk σ pc) σ pc := ⟨fun _ _ => rfl, rfl, rfl, rfl, rfl⟩
+theorem at_mk (sem : Sem V) (lo : Nat) (σ : SSt V) (pc : Nat) (hsp : σ.regs Special.sp = sem.ofNat 0) : At sem lo (mk σ pc) σ pc 0 [] :=
+  ⟨fun _ _ _ => rfl, hsp, rfl, fun i hi => by omega, fun _ _ => rfl, rfl, rfl, rfl⟩
 
 theorem run_add (sem : Sem V) (env : Env V) (P : List (Instr Reg V)) (a b : Nat) (s : St Reg V) :
     run sem env P (a + b) s = run sem env P b (run sem env P a s) := by
@@ -74,12 +79,13 @@ theorem run_one (sem : Sem V) (env : Env V) (P : List (Instr Reg V)) (s : St Reg
 
 /-! ### operands -/
 
-theorem eval_ok (f g : Reg → V) (h : ∀ r, r ≠ (Special.ra : Reg) → f r = g r) (o : Opnd Reg V) (ho : opndOk o) : o.eval f = o.eval g := by
+theorem eval_ok (f g : Reg → V) (h : ∀ r, r ≠ (Special.ra : Reg) → r ≠ (Special.sp : Reg) → f r = g r) (o : Opnd Reg V) (ho : opndOk o) :
+    o.eval f = o.eval g := by
   cases o with
-  | reg r => exact h r ho
+  | reg r => exact h r ho.1 ho.2
   | num v => rfl
 
-theorem evalArgs_ok (f g : Reg → V) (h : ∀ r, r ≠ (Special.ra : Reg) → f r = g r) :
+theorem evalArgs_ok (f g : Reg → V) (h : ∀ r, r ≠ (Special.ra : Reg) → r ≠ (Special.sp : Reg) → f r = g r) :
     ∀ (args : List (Opnd Reg V)), (∀ o ∈ args, opndOk o) → evalArgs f args = evalArgs g args := by
   intro args
   induction args with
@@ -98,141 +104,198 @@ theorem getLastD_snoc' {α : Type} (l : List α) (a d : α) : (l ++ [a]).getLast
   | nil => rfl
   | cons x xs ih => cases xs <;> simp_all [List.getLastD]
 
+theorem getD_append_lt {α : Type} (l l' : List α) (dflt : α) (i : Nat) (h : i < l.length) : (l ++ l').getD i dflt = l.getD i dflt := by
+  simp [List.getD, List.getElem?_append_left h]
+
+theorem getD_append_len {α : Type} (l : List α) (x dflt : α) : (l ++ [x]).getD l.length dflt = x := by
+  simp [List.getD]
+
 /-! ### single steps, relationally -/
 
 section steps
-variable (sem : Sem V) (env : Env V) (P : List (Instr Reg V)) (st : St Reg V) (σ : SSt V) (pc : Nat)
+variable (sem : Sem V) (lo : Nat) (env : Env V) (P : List (Instr Reg V)) (st : St Reg V) (σ : SSt V) (pc d : Nat) (stk : List V)
 
-theorem ra_ne_sp : (Special.sp : Reg) ≠ Special.ra := by decide
+theorem sp_ne_ra : (Special.sp : Reg) ≠ Special.ra := by decide
 
-theorem step_alu (h : At st σ pc) (x : Reg) (op : String) (args : List (Opnd Reg V)) (hx : x ≠ (Special.ra : Reg)) (ha : ∀ o ∈ args, opndOk o)
-    (hi : P[pc]? = some ⟨.alu op, some x, args⟩) :
-    At (step sem env P st) { σ with regs := upd σ.regs x (sem.alu op (evalArgs σ.regs args)) } (pc + 1) ∧
+/-- a step that writes one register that is neither `ra` nor `sp` and leaves the stack alone -/
+theorem step_write (h : At sem lo st σ pc d stk) (x : Reg) (v : V) (hx : regOk x) (τ : List (Eff V))
+    (hstep : step sem env P st = { regs := upd st.regs x v, mem := st.mem, pc := pc + 1, trace := τ, halted := false }) :
+    At sem lo (step sem env P st) { regs := upd σ.regs x v, mem := σ.mem, trace := τ } (pc + 1) d stk ∧
       (step sem env P st).regs Special.ra = st.regs Special.ra := by
-  obtain ⟨hr, hm, hp, ht, hh⟩ := h
-  have hv : args.map (Opnd.eval st.regs) = evalArgs σ.regs args := evalArgs_ok st.regs σ.regs hr args ha
-  simp only [step, hh, hp, hi, Bool.false_eq_true, if_false, IC10.exec, hv, applyOut, writeBack, updOpt]
-  refine ⟨⟨?_, hm, by simp [hp], by simp [ht], rfl⟩, by simp [upd, Ne.symm hx]⟩
-  intro r hr'
-  simp only [upd]
-  split
-  · rfl
-  · exact hr r hr'
-
-theorem step_load (h : At st σ pc) (x : Reg) (q : String) (args : List (Opnd Reg V)) (hx : x ≠ (Special.ra : Reg)) (ha : ∀ o ∈ args, opndOk o)
-    (hi : P[pc]? = some ⟨.load q, some x, args⟩) :
-    At (step sem env P st) { σ with regs := upd σ.regs x (env σ.trace q (evalArgs σ.regs args)) } (pc + 1) ∧
-      (step sem env P st).regs Special.ra = st.regs Special.ra := by
-  obtain ⟨hr, hm, hp, ht, hh⟩ := h
-  have hv : args.map (Opnd.eval st.regs) = evalArgs σ.regs args := evalArgs_ok st.regs σ.regs hr args ha
-  simp only [step, hh, hp, hi, Bool.false_eq_true, if_false, IC10.exec, hv, ht, applyOut, writeBack, updOpt]
-  refine ⟨⟨?_, hm, by simp [hp], by simp [ht], rfl⟩, by simp [upd, Ne.symm hx]⟩
-  intro r hr'
-  simp only [upd]
-  split
-  · rfl
-  · exact hr r hr'
-
-theorem step_getm (h : At st σ pc) (x : Reg) (a : Opnd Reg V) (n : Nat) (hx : x ≠ (Special.ra : Reg)) (hao : opndOk a)
-    (ha : sem.toAddr (a.eval σ.regs) = some n) (hn : n < stackSize) (hi : P[pc]? = some ⟨.getdb, some x, [a]⟩) :
-    At (step sem env P st) { σ with regs := upd σ.regs x (σ.mem n) } (pc + 1) ∧
-      (step sem env P st).regs Special.ra = st.regs Special.ra := by
-  obtain ⟨hr, hm, hp, ht, hh⟩ := h
-  have hv : a.eval st.regs = a.eval σ.regs := eval_ok st.regs σ.regs hr a hao
-  simp only [step, hh, hp, hi, Bool.false_eq_true, if_false, IC10.exec, List.map_cons, List.map_nil, hv, ha, hn, if_true, hm, applyOut, writeBack, updOpt]
-  refine ⟨⟨?_, rfl, by simp [hp], by simp [ht], rfl⟩, by simp [upd, Ne.symm hx]⟩
-  intro r hr'
-  simp only [upd]
-  split
-  · rfl
-  · exact hr r hr'
-
-theorem step_plain (h : At st σ pc) (i : Instr Reg V) (hi : P[pc]? = some i) (σ' : SSt V) (hregs : σ'.regs = σ.regs)
-    (hstep : step sem env P st = { regs := st.regs, mem := σ'.mem, pc := pc + 1, trace := σ'.trace, halted := false }) :
-    At (step sem env P st) σ' (pc + 1) ∧ (step sem env P st).regs Special.ra = st.regs Special.ra := by
   rw [hstep]
-  exact ⟨⟨fun r hr' => by rw [hregs]; exact h.regs r hr', rfl, rfl, rfl, rfl⟩, rfl⟩
+  refine ⟨⟨fun r h1 h2 => ?_, ?_, h.len, h.stack, h.mem, rfl, rfl, rfl⟩, ?_⟩
+  · simp only [upd]; split
+    · rfl
+    · exact h.regs r h1 h2
+  · simp only [upd, Ne.symm hx.2, if_false]; exact h.sp
+  · simp only [upd, Ne.symm hx.1, if_false]
 
-theorem step_store (h : At st σ pc) (q : String) (args : List (Opnd Reg V)) (ha : ∀ o ∈ args, opndOk o)
-    (hi : P[pc]? = some ⟨.store q, none, args⟩) :
-    At (step sem env P st) { σ with trace := ⟨q, evalArgs σ.regs args⟩ :: σ.trace } (pc + 1) ∧
+/-- a step that changes neither registers nor stack -/
+theorem step_plain (h : At sem lo st σ pc d stk) (pc' : Nat) (τ : List (Eff V))
+    (hstep : step sem env P st = { regs := st.regs, mem := st.mem, pc := pc', trace := τ, halted := false }) :
+    At sem lo (step sem env P st) { σ with trace := τ } pc' d stk ∧ (step sem env P st).regs Special.ra = st.regs Special.ra := by
+  rw [hstep]
+  exact ⟨⟨h.regs, h.sp, h.len, h.stack, h.mem, rfl, rfl, rfl⟩, rfl⟩
+
+theorem step_alu (h : At sem lo st σ pc d stk) (x : Reg) (op : String) (args : List (Opnd Reg V)) (hx : regOk x) (ha : ∀ o ∈ args, opndOk o)
+    (hi : P[pc]? = some ⟨.alu op, some x, args⟩) :
+    At sem lo (step sem env P st) { σ with regs := upd σ.regs x (sem.alu op (evalArgs σ.regs args)) } (pc + 1) d stk ∧
       (step sem env P st).regs Special.ra = st.regs Special.ra := by
   have hv : args.map (Opnd.eval st.regs) = evalArgs σ.regs args := evalArgs_ok st.regs σ.regs h.regs args ha
-  refine step_plain sem env P st σ pc h _ hi { σ with trace := ⟨q, evalArgs σ.regs args⟩ :: σ.trace } rfl ?_
-  simp [step, h.halted, h.pc, hi, IC10.exec, hv, applyOut, writeBack, updOpt, h.mem, h.trace]
+  have := step_write sem lo env P st σ pc d stk h x (sem.alu op (evalArgs σ.regs args)) hx st.trace
+    (by simp [step, h.halted, h.pc, hi, IC10.exec, hv, applyOut, writeBack, updOpt])
+  rw [h.trace] at this
+  exact this
 
-theorem step_putm (h : At st σ pc) (a v : Opnd Reg V) (n : Nat) (hao : opndOk a) (hvo : opndOk v)
-    (ha : sem.toAddr (a.eval σ.regs) = some n) (hn : n < stackSize) (hi : P[pc]? = some ⟨.poke, none, [a, v]⟩) :
-    At (step sem env P st) { σ with mem := updMem σ.mem n (v.eval σ.regs) } (pc + 1) ∧
+theorem step_load (h : At sem lo st σ pc d stk) (x : Reg) (q : String) (args : List (Opnd Reg V)) (hx : regOk x) (ha : ∀ o ∈ args, opndOk o)
+    (hi : P[pc]? = some ⟨.load q, some x, args⟩) :
+    At sem lo (step sem env P st) { σ with regs := upd σ.regs x (env σ.trace q (evalArgs σ.regs args)) } (pc + 1) d stk ∧
+      (step sem env P st).regs Special.ra = st.regs Special.ra := by
+  have hv : args.map (Opnd.eval st.regs) = evalArgs σ.regs args := evalArgs_ok st.regs σ.regs h.regs args ha
+  have := step_write sem lo env P st σ pc d stk h x (env σ.trace q (evalArgs σ.regs args)) hx st.trace
+    (by simp [step, h.halted, h.pc, hi, IC10.exec, hv, h.trace, applyOut, writeBack, updOpt])
+  rw [h.trace] at this
+  exact this
+
+theorem step_getm (h : At sem lo st σ pc d stk) (x : Reg) (v : V) (n : Nat) (hx : regOk x)
+    (ha : sem.toAddr v = some n) (hlo : lo ≤ n) (hn : n < stackSize) (hi : P[pc]? = some ⟨.getdb, some x, [.num v]⟩) :
+    At sem lo (step sem env P st) { σ with regs := upd σ.regs x (σ.mem n) } (pc + 1) d stk ∧
+      (step sem env P st).regs Special.ra = st.regs Special.ra := by
+  have := step_write sem lo env P st σ pc d stk h x (σ.mem n) hx st.trace
+    (by simp [step, h.halted, h.pc, hi, IC10.exec, Opnd.eval, ha, hn, h.mem n hlo, applyOut, writeBack, updOpt])
+  rw [h.trace] at this
+  exact this
+
+theorem step_store (h : At sem lo st σ pc d stk) (q : String) (args : List (Opnd Reg V)) (ha : ∀ o ∈ args, opndOk o)
+    (hi : P[pc]? = some ⟨.store q, none, args⟩) :
+    At sem lo (step sem env P st) { σ with trace := ⟨q, evalArgs σ.regs args⟩ :: σ.trace } (pc + 1) d stk ∧
+      (step sem env P st).regs Special.ra = st.regs Special.ra := by
+  have hv : args.map (Opnd.eval st.regs) = evalArgs σ.regs args := evalArgs_ok st.regs σ.regs h.regs args ha
+  exact step_plain sem lo env P st σ pc d stk h (pc + 1) _
+    (by simp [step, h.halted, h.pc, hi, IC10.exec, hv, applyOut, writeBack, updOpt, h.trace])
+
+theorem step_yield (h : At sem lo st σ pc d stk) (hi : P[pc]? = some ⟨.yield, none, []⟩) :
+    At sem lo (step sem env P st) { σ with trace := ⟨"yield", []⟩ :: σ.trace } (pc + 1) d stk ∧
+      (step sem env P st).regs Special.ra = st.regs Special.ra :=
+  step_plain sem lo env P st σ pc d stk h (pc + 1) _
+    (by simp [step, h.halted, h.pc, hi, IC10.exec, applyOut, writeBack, updOpt, h.trace])
+
+theorem step_sleep (h : At sem lo st σ pc d stk) (a : Opnd Reg V) (hao : opndOk a) (hi : P[pc]? = some ⟨.sleep, none, [a]⟩) :
+    At sem lo (step sem env P st) { σ with trace := ⟨"sleep", [a.eval σ.regs]⟩ :: σ.trace } (pc + 1) d stk ∧
       (step sem env P st).regs Special.ra = st.regs Special.ra := by
   have e1 : a.eval st.regs = a.eval σ.regs := eval_ok st.regs σ.regs h.regs a hao
-  have e2 : v.eval st.regs = v.eval σ.regs := eval_ok st.regs σ.regs h.regs v hvo
-  refine step_plain sem env P st σ pc h _ hi { σ with mem := updMem σ.mem n (v.eval σ.regs) } rfl ?_
-  simp [step, h.halted, h.pc, hi, IC10.exec, e1, e2, ha, hn, applyOut, writeBack, updOpt, h.mem, h.trace]
+  exact step_plain sem lo env P st σ pc d stk h (pc + 1) _
+    (by simp [step, h.halted, h.pc, hi, IC10.exec, e1, applyOut, writeBack, updOpt, h.trace])
 
-theorem step_yield (h : At st σ pc) (hi : P[pc]? = some ⟨.yield, none, []⟩) :
-    At (step sem env P st) { σ with trace := ⟨"yield", []⟩ :: σ.trace } (pc + 1) ∧
-      (step sem env P st).regs Special.ra = st.regs Special.ra := by
-  refine step_plain sem env P st σ pc h _ hi { σ with trace := ⟨"yield", []⟩ :: σ.trace } rfl ?_
-  simp [step, h.halted, h.pc, hi, IC10.exec, applyOut, writeBack, updOpt, h.mem, h.trace]
+theorem step_nop (h : At sem lo st σ pc d stk) (hi : P[pc]? = some nopI) :
+    At sem lo (step sem env P st) σ (pc + 1) d stk ∧ (step sem env P st).regs Special.ra = st.regs Special.ra := by
+  have := step_plain sem lo env P st σ pc d stk h (pc + 1) st.trace
+    (by simp [step, h.halted, h.pc, hi, nopI, IC10.exec, applyOut, writeBack, updOpt])
+  rw [h.trace] at this
+  exact this
 
-theorem step_sleep (h : At st σ pc) (a : Opnd Reg V) (hao : opndOk a) (hi : P[pc]? = some ⟨.sleep, none, [a]⟩) :
-    At (step sem env P st) { σ with trace := ⟨"sleep", [a.eval σ.regs]⟩ :: σ.trace } (pc + 1) ∧
-      (step sem env P st).regs Special.ra = st.regs Special.ra := by
-  have e1 : a.eval st.regs = a.eval σ.regs := eval_ok st.regs σ.regs h.regs a hao
-  refine step_plain sem env P st σ pc h _ hi { σ with trace := ⟨"sleep", [a.eval σ.regs]⟩ :: σ.trace } rfl ?_
-  simp [step, h.halted, h.pc, hi, IC10.exec, e1, applyOut, writeBack, updOpt, h.mem, h.trace]
+theorem step_jmp (h : At sem lo st σ pc d stk) (lit : Nat → V) (n : Nat) (hl : sem.toAddr (lit n) = some n) (hi : P[pc]? = some ⟨.jmp, none, [.num (lit n)]⟩) :
+    At sem lo (step sem env P st) σ n d stk ∧ (step sem env P st).regs Special.ra = st.regs Special.ra := by
+  have := step_plain sem lo env P st σ pc d stk h n st.trace
+    (by simp [step, h.halted, h.pc, hi, IC10.exec, target, Opnd.eval, hl, applyOut, writeBack, updOpt])
+  rw [h.trace] at this
+  exact this
 
-theorem step_nop (h : At st σ pc) (hi : P[pc]? = some nopI) :
-    At (step sem env P st) σ (pc + 1) ∧ (step sem env P st).regs Special.ra = st.regs Special.ra := by
-  refine step_plain sem env P st σ pc h _ hi σ rfl ?_
-  simp [step, h.halted, h.pc, hi, nopI, IC10.exec, applyOut, writeBack, updOpt, h.mem, h.trace]
-
-theorem step_jmp (h : At st σ pc) (lit : Nat → V) (n : Nat) (hl : sem.toAddr (lit n) = some n) (hi : P[pc]? = some ⟨.jmp, none, [.num (lit n)]⟩) :
-    At (step sem env P st) σ n ∧ (step sem env P st).regs Special.ra = st.regs Special.ra := by
-  have hs : step sem env P st = { regs := st.regs, mem := st.mem, pc := n, trace := st.trace, halted := false } := by
-    simp [step, h.halted, h.pc, hi, IC10.exec, target, Opnd.eval, hl, applyOut, writeBack, updOpt]
-  rw [hs]
-  exact ⟨⟨h.regs, h.mem, rfl, h.trace, rfl⟩, rfl⟩
-
-theorem step_br (h : At st σ pc) (lit : Nat → V) (c : String) (args : List (Opnd Reg V)) (n : Nat) (hl : sem.toAddr (lit n) = some n)
+theorem step_br (h : At sem lo st σ pc d stk) (lit : Nat → V) (c : String) (args : List (Opnd Reg V)) (n : Nat) (hl : sem.toAddr (lit n) = some n)
     (ha : ∀ o ∈ args, opndOk o) (hi : P[pc]? = some ⟨.br c, none, args ++ [.num (lit n)]⟩) :
-    At (step sem env P st) σ (if sem.cond c (evalArgs σ.regs args) then n else pc + 1) ∧
+    At sem lo (step sem env P st) σ (if sem.cond c (evalArgs σ.regs args) then n else pc + 1) d stk ∧
       (step sem env P st).regs Special.ra = st.regs Special.ra := by
   have hv : (args ++ [Opnd.num (lit n)]).map (Opnd.eval st.regs) = evalArgs σ.regs args ++ [lit n] := by
     have := evalArgs_ok st.regs σ.regs h.regs args ha
     simp only [evalArgs] at this
     simp [evalArgs, Opnd.eval, this]
   by_cases hc : sem.cond c (evalArgs σ.regs args) = true
-  · have hs : step sem env P st = { regs := st.regs, mem := st.mem, pc := n, trace := st.trace, halted := false } := by
+  · have := step_plain sem lo env P st σ pc d stk h n st.trace (by
       simp only [step, h.halted, h.pc, hi, IC10.exec, hv, dropLast_snoc', getLastD_snoc', hc, if_true, target, hl, applyOut, writeBack, updOpt, Bool.false_eq_true, if_false]
-      simp
-    rw [hs, if_pos hc]
-    exact ⟨⟨h.regs, h.mem, rfl, h.trace, rfl⟩, rfl⟩
+      simp)
+    rw [h.trace] at this
+    rw [if_pos hc]; exact this
   · have hc' : sem.cond c (evalArgs σ.regs args) = false := by simpa using hc
-    have hs : step sem env P st = { regs := st.regs, mem := st.mem, pc := pc + 1, trace := st.trace, halted := false } := by
+    have := step_plain sem lo env P st σ pc d stk h (pc + 1) st.trace (by
       simp only [step, h.halted, h.pc, hi, IC10.exec, hv, dropLast_snoc', hc', Bool.false_eq_true, if_false, applyOut, writeBack, updOpt]
-      simp [h.pc]
-    rw [hs, if_neg hc]
-    exact ⟨⟨h.regs, h.mem, rfl, h.trace, rfl⟩, rfl⟩
+      simp [h.pc])
+    rw [h.trace] at this
+    rw [if_neg hc]; exact this
+
+/-- `put db n v` at a literal address of the program's memory: the call stack below is not touched -/
+theorem step_putm (h : At sem lo st σ pc d stk) (a : V) (v : Opnd Reg V) (n : Nat) (hvo : opndOk v) (hd : d ≤ lo)
+    (ha : sem.toAddr a = some n) (hlo : lo ≤ n) (hn : n < stackSize) (hi : P[pc]? = some ⟨.poke, none, [.num a, v]⟩) :
+    At sem lo (step sem env P st) { σ with mem := updMem σ.mem n (v.eval σ.regs) } (pc + 1) d stk ∧
+      (step sem env P st).regs Special.ra = st.regs Special.ra := by
+  have e2 : v.eval st.regs = v.eval σ.regs := eval_ok st.regs σ.regs h.regs v hvo
+  have hnum : (Opnd.num a : Opnd Reg V).eval st.regs = a := rfl
+  have hs : step sem env P st = { regs := st.regs, mem := updMem st.mem n (v.eval σ.regs), pc := pc + 1, trace := st.trace, halted := false } := by
+    rw [← e2]
+    simp [step, h.halted, h.pc, hi, IC10.exec, hnum, ha, hn, applyOut, writeBack, updOpt]
+  rw [hs]
+  refine ⟨⟨h.regs, h.sp, h.len, fun i hi' => ?_, fun m hm => ?_, rfl, h.trace, rfl⟩, rfl⟩
+  · have : i ≠ n := by omega
+    simp only [updMem, this, if_false]; exact h.stack i hi'
+  · simp only [updMem]; split
+    · rfl
+    · exact h.mem m hm
 
 /-- `jal`: `ra` receives the line after the call, everything else stays -/
-theorem step_jal (h : At st σ pc) (lit : Nat → V) (n : Nat) (hl : sem.toAddr (lit n) = some n) (hi : P[pc]? = some ⟨.jal, none, [.num (lit n)]⟩) :
-    At (step sem env P st) σ n ∧ (step sem env P st).regs Special.ra = sem.ofNat (pc + 1) := by
+theorem step_jal (h : At sem lo st σ pc d stk) (lit : Nat → V) (n : Nat) (hl : sem.toAddr (lit n) = some n) (hi : P[pc]? = some ⟨.jal, none, [.num (lit n)]⟩) :
+    At sem lo (step sem env P st) σ n d stk ∧ (step sem env P st).regs Special.ra = sem.ofNat (pc + 1) := by
   have hs : step sem env P st = { regs := upd st.regs Special.ra (sem.ofNat (pc + 1)), mem := st.mem, pc := n, trace := st.trace, halted := false } := by
     simp [step, h.halted, h.pc, hi, IC10.exec, target, Opnd.eval, hl, applyOut, writeBack, updOpt]
   rw [hs]
-  refine ⟨⟨fun r hr' => ?_, h.mem, rfl, h.trace, rfl⟩, by simp [upd]⟩
-  simp only [upd, hr', if_false]
-  exact h.regs r hr'
+  refine ⟨⟨fun r h1 h2 => ?_, ?_, h.len, h.stack, h.mem, rfl, h.trace, rfl⟩, by simp [upd]⟩
+  · simp only [upd, h1, if_false]; exact h.regs r h1 h2
+  · simp only [upd, sp_ne_ra, if_false]; exact h.sp
 
 /-- `j ra`: continues at the line `ra` holds -/
-theorem step_ret (h : At st σ pc) (n : Nat) (hra : sem.toAddr (st.regs Special.ra) = some n) (hi : P[pc]? = some ⟨.jmp, none, [.reg Special.ra]⟩) :
-    At (step sem env P st) σ n ∧ (step sem env P st).regs Special.ra = st.regs Special.ra := by
-  have hs : step sem env P st = { regs := st.regs, mem := st.mem, pc := n, trace := st.trace, halted := false } := by
-    simp [step, h.halted, h.pc, hi, IC10.exec, target, Opnd.eval, hra, applyOut, writeBack, updOpt]
+theorem step_ret (h : At sem lo st σ pc d stk) (n : Nat) (hra : sem.toAddr (st.regs Special.ra) = some n) (hi : P[pc]? = some retI) :
+    At sem lo (step sem env P st) σ n d stk ∧ (step sem env P st).regs Special.ra = st.regs Special.ra := by
+  have := step_plain sem lo env P st σ pc d stk h n st.trace
+    (by simp [step, h.halted, h.pc, hi, retI, IC10.exec, target, Opnd.eval, hra, applyOut, writeBack, updOpt])
+  rw [h.trace] at this
+  exact this
+
+/-- `push ra` at the entry of a procedure that calls others: the return address goes to cell `d` of the call stack -/
+theorem step_push_ra (hof : ∀ n, sem.toAddr (sem.ofNat n) = some n) (h : At sem lo st σ pc d stk) (hd : d < lo) (hlo : lo ≤ stackSize)
+    (hi : P[pc]? = some pushRa) :
+    At sem lo (step sem env P st) σ (pc + 1) (d + 1) (stk ++ [st.regs Special.ra]) ∧ (step sem env P st).regs Special.ra = st.regs Special.ra := by
+  have hds : d < stackSize := by omega
+  have hs : step sem env P st =
+      { regs := upd st.regs Special.sp (sem.ofNat (d + 1)), mem := updMem st.mem d (st.regs Special.ra), pc := pc + 1, trace := st.trace, halted := false } := by
+    simp [step, h.halted, h.pc, hi, pushRa, IC10.exec, Opnd.eval, h.sp, hof, hds, applyOut, writeBack, updOpt]
   rw [hs]
-  exact ⟨⟨h.regs, h.mem, rfl, h.trace, rfl⟩, rfl⟩
+  refine ⟨⟨fun r h1 h2 => ?_, by simp [upd], by simp [h.len], fun i hi' => ?_, fun m hm => ?_, rfl, h.trace, rfl⟩, ?_⟩
+  · simp only [upd, h2, if_false]; exact h.regs r h1 h2
+  · simp only [updMem]
+    by_cases hid : i = d
+    · subst hid; simp only [if_true]; rw [← h.len, getD_append_len]
+    · have hlt : i < d := by omega
+      simp only [hid, if_false]
+      rw [h.stack i hlt, getD_append_lt _ _ _ _ (by rw [h.len]; exact hlt)]
+  · have : m ≠ d := by omega
+    simp only [updMem, this, if_false]; exact h.mem m hm
+  · simp only [upd, Ne.symm sp_ne_ra, if_false]
+
+/-- `pop ra` after the end label: the return address saved at the entry comes back -/
+theorem step_pop_ra (hof : ∀ n, sem.toAddr (sem.ofNat n) = some n) (v : V) (h : At sem lo st σ pc (d + 1) (stk ++ [v])) (hd : d < lo) (hlo : lo ≤ stackSize)
+    (hi : P[pc]? = some popRa) :
+    At sem lo (step sem env P st) σ (pc + 1) d stk ∧ (step sem env P st).regs Special.ra = v := by
+  have hds : d < stackSize := by omega
+  have hlen : stk.length = d := by have := h.len; simpa using this
+  have hcell : st.mem d = v := by
+    have := h.stack d (by omega)
+    rw [this, ← hlen, getD_append_len]
+  have hs : step sem env P st =
+      { regs := upd (upd st.regs Special.sp (sem.ofNat d)) Special.ra (st.mem d), mem := st.mem, pc := pc + 1, trace := st.trace, halted := false } := by
+    simp [step, h.halted, h.pc, hi, popRa, IC10.exec, h.sp, hof, hds, applyOut, writeBack, updOpt]
+  rw [hs]
+  refine ⟨⟨fun r h1 h2 => ?_, ?_, hlen, fun i hi' => ?_, h.mem, rfl, h.trace, rfl⟩, by simp [upd, hcell]⟩
+  · simp only [upd, h1, h2, if_false]; exact h.regs r h1 h2
+  · simp [upd, sp_ne_ra]
+  · rw [h.stack i (by omega), getD_append_lt _ _ _ _ (by omega)]
 
 end steps
 
@@ -252,7 +315,7 @@ theorem run_step (sem : Sem V) (env : Env V) (P : List (Instr Reg V)) (k : Nat) 
   | zero => rfl
   | succ k ih => exact ih (step sem env P st)
 
-theorem good_mono (sem : Sem V) (a b : Nat → Prop) (hab : ∀ k, a k → b k) : ∀ s : Stmt V, Good sem a s → Good sem b s := by
+theorem good_mono (sem : Sem V) (lo : Nat) (a b : Nat → Prop) (hab : ∀ k, a k → b k) : ∀ s : Stmt V, Good sem lo a s → Good sem lo b s := by
   intro s
   induction s with
   | call k => intro h; exact hab k h
@@ -263,7 +326,7 @@ theorem good_mono (sem : Sem V) (a b : Nat → Prop) (hab : ∀ k, a k → b k) 
   | loop body ih => intro h; exact ih h
   | _ => intro h; exact h
 
-theorem good_false_nocall (sem : Sem V) : ∀ s : Stmt V, Good sem (fun _ => False) s → NoCall s := by
+theorem good_false_nocall (sem : Sem V) (lo : Nat) : ∀ s : Stmt V, Good sem lo (fun _ => False) s → NoCall s := by
   intro s
   induction s with
   | call k => intro h; exact h
@@ -274,213 +337,284 @@ theorem good_false_nocall (sem : Sem V) : ∀ s : Stmt V, Good sem (fun _ => Fal
   | loop body ih => intro h; exact ih h
   | _ => intro _; trivial
 
-section sim
-variable (sem : Sem V) (env : Env V) (lit : Nat → V) (entry : Nat → Nat) (F : Nat → Stmt V) (P : List (Instr Reg V))
+theorem hasCall_false_nocall : ∀ s : Stmt V, hasCall s = false → NoCall s := by
+  intro s
+  induction s with
+  | call k => intro h; simp [hasCall] at h
+  | seq p q ihp ihq => intro h; simp only [hasCall, Bool.or_eq_false_iff] at h; exact ⟨ihp h.1, ihq h.2⟩
+  | ite c neg args p q ihp ihq => intro h; simp only [hasCall, Bool.or_eq_false_iff] at h; exact ⟨ihp h.1, ihq h.2⟩
+  | ifThen c neg args p ihp => intro h; exact ihp h
+  | «while» c neg args body ih => intro h; exact ih h
+  | loop body ih => intro h; exact ih h
+  | _ => intro _; trivial
 
-/-- procedure `k` sits at its entry line, calls nothing and is well formed -/
+section sim
+variable (sem : Sem V) (lo : Nat) (env : Env V) (lit : Nat → V) (entry : Nat → Nat) (F : Nat → Stmt V) (P : List (Instr Reg V))
+variable (rk : Nat → Nat) (okP : Nat → Prop)
+
+/-- procedure `k` sits at its entry line and is well formed; the procedures it calls have a smaller rank (no recursion: the
+    depth of the call stack is bounded) -/
 structure ProcOk (k : Nat) : Prop where
   code : CodeAt P (entry k) (compProc lit entry (F k) k)
-  good : Good sem (fun _ => False) (F k)
+  good : Good sem lo (fun j => okP j ∧ rk j < rk k) (F k)
 
 def Claim (n : Nat) (s : Stmt V) : Prop :=
-  ∀ (base cl bl rl : Nat) (σ : SSt V) (st : St Reg V), CodeAt P base (comp lit entry s base cl bl rl) → At st σ base →
+  ∀ (ok : Nat → Prop) (b : Nat), (∀ k, ok k → okP k ∧ rk k < b) → Good sem lo ok s →
+  ∀ (base cl bl rl : Nat) (σ : SSt V) (st : St Reg V) (d : Nat) (stk : List V), d + b ≤ lo →
+    CodeAt P base (comp lit entry s base cl bl rl) → At sem lo st σ base d stk →
     (∀ e σ', exec sem env F n s σ = .ok e σ' →
-        ∃ k, At (run sem env P k st) σ' (land e (base + size s) cl bl rl) ∧
+        ∃ k, At sem lo (run sem env P k st) σ' (land e (base + size s) cl bl rl) d stk ∧
              (NoCall s → (run sem env P k st).regs Special.ra = st.regs Special.ra)) ∧
-    (∀ σ', exec sem env F n s σ = .timeout σ' → ∃ k pc, n ≤ k ∧ At (run sem env P k st) σ' pc)
+    (∀ σ', exec sem env F n s σ = .timeout σ' → ∃ k pc d' stk', n ≤ k ∧ At sem lo (run sem env P k st) σ' pc d' stk')
 
-theorem claim_stmt (hlit : ∀ n, sem.toAddr (lit n) = some n) (hof : ∀ n, sem.toAddr (sem.ofNat n) = some n)
-    (ok : Nat → Prop) (hok : ∀ k, ok k → ProcOk sem lit entry F P k) (n : Nat)
-    (hprev : ∀ m, n = m + 1 → ∀ s, Good sem ok s → Claim sem env lit entry F P m s) :
-    ∀ s, Good sem ok s → Claim sem env lit entry F P n s := by
+theorem claim_stmt (hlit : ∀ n, sem.toAddr (lit n) = some n) (hof : ∀ n, sem.toAddr (sem.ofNat n) = some n) (hlo : lo ≤ stackSize)
+    (hokP : ∀ k, okP k → ProcOk sem lo lit entry F P rk okP k) (n : Nat)
+    (hprev : ∀ m, n = m + 1 → ∀ s, Claim sem lo env lit entry F P rk okP m s) :
+    ∀ s, Claim sem lo env lit entry F P rk okP n s := by
   intro s
   induction s with
   | alu x op args =>
-    intro hg base cl bl rl σ st hc hat
+    intro ok b hokb hg base cl bl rl σ st d stk hdb hc hat
     have hi : P[base]? = some ⟨.alu op, some x, args⟩ := by have := hc 0 (by simp [comp]); simpa [comp] using this
-    obtain ⟨h1, h2⟩ := step_alu sem env P st σ base hat x op args hg.1 hg.2 hi
+    obtain ⟨h1, h2⟩ := step_alu sem lo env P st σ base d stk hat x op args hg.1 hg.2 hi
     refine ⟨fun e σ' h => ⟨1, ?_, fun _ => h2⟩, fun σ' h => by simp [exec] at h⟩
     simp only [exec, Res.done, Res.ok.injEq] at h
     obtain ⟨rfl, rfl⟩ := h
     exact h1
   | load x q args =>
-    intro hg base cl bl rl σ st hc hat
+    intro ok b hokb hg base cl bl rl σ st d stk hdb hc hat
     have hi : P[base]? = some ⟨.load q, some x, args⟩ := by have := hc 0 (by simp [comp]); simpa [comp] using this
-    obtain ⟨h1, h2⟩ := step_load sem env P st σ base hat x q args hg.1 hg.2 hi
+    obtain ⟨h1, h2⟩ := step_load sem lo env P st σ base d stk hat x q args hg.1 hg.2 hi
     refine ⟨fun e σ' h => ⟨1, ?_, fun _ => h2⟩, fun σ' h => by simp [exec] at h⟩
     simp only [exec, Res.done, Res.ok.injEq] at h
     obtain ⟨rfl, rfl⟩ := h
     exact h1
   | store q args =>
-    intro hg base cl bl rl σ st hc hat
+    intro ok b hokb hg base cl bl rl σ st d stk hdb hc hat
     have hi : P[base]? = some ⟨.store q, none, args⟩ := by have := hc 0 (by simp [comp]); simpa [comp] using this
-    obtain ⟨h1, h2⟩ := step_store sem env P st σ base hat q args hg hi
+    obtain ⟨h1, h2⟩ := step_store sem lo env P st σ base d stk hat q args hg hi
     refine ⟨fun e σ' h => ⟨1, ?_, fun _ => h2⟩, fun σ' h => by simp [exec] at h⟩
     simp only [exec, Res.done, Res.ok.injEq] at h
     obtain ⟨rfl, rfl⟩ := h
     exact h1
   | yield =>
-    intro hg base cl bl rl σ st hc hat
+    intro ok b hokb hg base cl bl rl σ st d stk hdb hc hat
     have hi : P[base]? = some ⟨.yield, none, []⟩ := by have := hc 0 (by simp [comp]); simpa [comp] using this
-    obtain ⟨h1, h2⟩ := step_yield sem env P st σ base hat hi
+    obtain ⟨h1, h2⟩ := step_yield sem lo env P st σ base d stk hat hi
     refine ⟨fun e σ' h => ⟨1, ?_, fun _ => h2⟩, fun σ' h => by simp [exec] at h⟩
     simp only [exec, Res.done, Res.ok.injEq] at h
     obtain ⟨rfl, rfl⟩ := h
     exact h1
   | sleep a =>
-    intro hg base cl bl rl σ st hc hat
+    intro ok b hokb hg base cl bl rl σ st d stk hdb hc hat
     have hi : P[base]? = some ⟨.sleep, none, [a]⟩ := by have := hc 0 (by simp [comp]); simpa [comp] using this
-    obtain ⟨h1, h2⟩ := step_sleep sem env P st σ base hat a hg hi
+    obtain ⟨h1, h2⟩ := step_sleep sem lo env P st σ base d stk hat a hg hi
     refine ⟨fun e σ' h => ⟨1, ?_, fun _ => h2⟩, fun σ' h => by simp [exec] at h⟩
     simp only [exec, Res.done, Res.ok.injEq] at h
     obtain ⟨rfl, rfl⟩ := h
     exact h1
   | skip =>
-    intro hg base cl bl rl σ st hc hat
+    intro ok b hokb hg base cl bl rl σ st d stk hdb hc hat
     refine ⟨fun e σ' h => ⟨0, ?_, fun _ => rfl⟩, fun σ' h => by simp [exec] at h⟩
     simp only [exec, Res.done, Res.ok.injEq] at h
     obtain ⟨rfl, rfl⟩ := h
     simpa [run, size, land] using hat
   | getm x a =>
-    intro hg base cl bl rl σ st hc hat
-    have hi : P[base]? = some ⟨.getdb, some x, [a]⟩ := by have := hc 0 (by simp [comp]); simpa [comp] using this
-    refine ⟨fun e σ' h => ?_, fun σ' h => ?_⟩
-    · simp only [exec] at h
-      cases ha : sem.toAddr (a.eval σ.regs) with
-      | none => rw [ha] at h; simp at h
-      | some m =>
-        rw [ha] at h
-        simp only at h
-        by_cases hm : m < stackSize
-        · rw [if_pos hm] at h
-          simp only [Res.done, Res.ok.injEq] at h
-          obtain ⟨rfl, rfl⟩ := h
-          obtain ⟨h1, h2⟩ := step_getm sem env P st σ base hat x a m hg.1 hg.2 ha hm hi
-          exact ⟨1, h1, fun _ => h2⟩
-        · rw [if_neg hm] at h; simp at h
-    · simp only [exec] at h
-      cases ha : sem.toAddr (a.eval σ.regs) with
-      | none => rw [ha] at h; simp at h
-      | some m => rw [ha] at h; simp only at h; split at h <;> simp [Res.done] at h
+    intro ok b hokb hg base cl bl rl σ st d stk hdb hc hat
+    obtain ⟨hx, haok⟩ := hg
+    cases a with
+    | reg r => exact haok.elim
+    | num v =>
+      obtain ⟨m, ha, hlom, hm⟩ := haok
+      have hi : P[base]? = some ⟨.getdb, some x, [.num v]⟩ := by have := hc 0 (by simp [comp]); simpa [comp] using this
+      obtain ⟨h1, h2⟩ := step_getm sem lo env P st σ base d stk hat x v m hx ha hlom hm hi
+      refine ⟨fun e σ' h => ⟨1, ?_, fun _ => h2⟩, fun σ' h => ?_⟩
+      · simp only [exec, Opnd.eval, ha, hm, if_true, Res.done, Res.ok.injEq] at h
+        obtain ⟨rfl, rfl⟩ := h
+        exact h1
+      · simp [exec, Opnd.eval, ha, hm, Res.done] at h
   | putm a v =>
-    intro hg base cl bl rl σ st hc hat
-    have hi : P[base]? = some ⟨.poke, none, [a, v]⟩ := by have := hc 0 (by simp [comp]); simpa [comp] using this
-    refine ⟨fun e σ' h => ?_, fun σ' h => ?_⟩
-    · simp only [exec] at h
-      cases ha : sem.toAddr (a.eval σ.regs) with
-      | none => rw [ha] at h; simp at h
-      | some m =>
-        rw [ha] at h
-        simp only at h
-        by_cases hm : m < stackSize
-        · rw [if_pos hm] at h
-          simp only [Res.done, Res.ok.injEq] at h
-          obtain ⟨rfl, rfl⟩ := h
-          obtain ⟨h1, h2⟩ := step_putm sem env P st σ base hat a v m hg.1 hg.2 ha hm hi
-          exact ⟨1, h1, fun _ => h2⟩
-        · rw [if_neg hm] at h; simp at h
-    · simp only [exec] at h
-      cases ha : sem.toAddr (a.eval σ.regs) with
-      | none => rw [ha] at h; simp at h
-      | some m => rw [ha] at h; simp only at h; split at h <;> simp [Res.done] at h
+    intro ok b hokb hg base cl bl rl σ st d stk hdb hc hat
+    obtain ⟨haok, hv⟩ := hg
+    cases a with
+    | reg r => exact haok.elim
+    | num w =>
+      obtain ⟨m, ha, hlom, hm⟩ := haok
+      have hi : P[base]? = some ⟨.poke, none, [.num w, v]⟩ := by have := hc 0 (by simp [comp]); simpa [comp] using this
+      obtain ⟨h1, h2⟩ := step_putm sem lo env P st σ base d stk hat w v m hv (by omega) ha hlom hm hi
+      refine ⟨fun e σ' h => ⟨1, ?_, fun _ => h2⟩, fun σ' h => ?_⟩
+      · simp only [exec, Opnd.eval, ha, hm, if_true, Res.done, Res.ok.injEq] at h
+        obtain ⟨rfl, rfl⟩ := h
+        exact h1
+      · simp [exec, Opnd.eval, ha, hm, Res.done] at h
   | brk =>
-    intro hg base cl bl rl σ st hc hat
+    intro ok b hokb hg base cl bl rl σ st d stk hdb hc hat
     have hi : P[base]? = some ⟨.jmp, none, [.num (lit bl)]⟩ := by have := hc 0 (by simp [comp]); simpa [comp] using this
-    obtain ⟨h1, h2⟩ := step_jmp sem env P st σ base hat lit bl (hlit _) hi
+    obtain ⟨h1, h2⟩ := step_jmp sem lo env P st σ base d stk hat lit bl (hlit _) hi
     refine ⟨fun e σ' h => ⟨1, ?_, fun _ => h2⟩, fun σ' h => by simp [exec] at h⟩
     simp only [exec, Res.ok.injEq] at h
     obtain ⟨rfl, rfl⟩ := h
     exact h1
   | cont =>
-    intro hg base cl bl rl σ st hc hat
+    intro ok b hokb hg base cl bl rl σ st d stk hdb hc hat
     have hi : P[base]? = some ⟨.jmp, none, [.num (lit cl)]⟩ := by have := hc 0 (by simp [comp]); simpa [comp] using this
-    obtain ⟨h1, h2⟩ := step_jmp sem env P st σ base hat lit cl (hlit _) hi
+    obtain ⟨h1, h2⟩ := step_jmp sem lo env P st σ base d stk hat lit cl (hlit _) hi
     refine ⟨fun e σ' h => ⟨1, ?_, fun _ => h2⟩, fun σ' h => by simp [exec] at h⟩
     simp only [exec, Res.ok.injEq] at h
     obtain ⟨rfl, rfl⟩ := h
     exact h1
   | ret =>
-    intro hg base cl bl rl σ st hc hat
+    intro ok b hokb hg base cl bl rl σ st d stk hdb hc hat
     have hi : P[base]? = some ⟨.jmp, none, [.num (lit rl)]⟩ := by have := hc 0 (by simp [comp]); simpa [comp] using this
-    obtain ⟨h1, h2⟩ := step_jmp sem env P st σ base hat lit rl (hlit _) hi
+    obtain ⟨h1, h2⟩ := step_jmp sem lo env P st σ base d stk hat lit rl (hlit _) hi
     refine ⟨fun e σ' h => ⟨1, ?_, fun _ => h2⟩, fun σ' h => by simp [exec] at h⟩
     simp only [exec, Res.ok.injEq] at h
     obtain ⟨rfl, rfl⟩ := h
     exact h1
   | call j =>
-    intro hg base cl bl rl σ st hc hat
-    have hp := hok j hg
+    intro ok b hokb hg base cl bl rl σ st d stk hdb hc hat
+    obtain ⟨hjok, hjrk⟩ := hokb j hg
+    have hp := hokP j hjok
     have hi : P[base]? = some ⟨.jal, none, [.num (lit (entry j))]⟩ := by have := hc 0 (by simp [comp]); simpa [comp] using this
-    -- the procedure's block: label ; body ; end label ; j ra
-    have hblock : CodeAt P (entry j) ([nopI] ++ (comp lit entry (F j) (entry j + 1) 0 0 (entry j + 1 + size (F j)) ++ [nopI, ⟨.jmp, none, [.reg Special.ra]⟩])) := by
-      simpa [compProc, List.append_assoc] using hp.code
-    have hlab : P[entry j]? = some nopI := by have := hblock 0 (by simp); simpa using this
-    have hb1 := hblock.right
-    simp only [List.length_singleton] at hb1
-    have hbody := hb1.left
-    have hb2 := hb1.right
-    rw [comp_length] at hb2
-    have hend : P[entry j + 1 + size (F j)]? = some nopI := by have := hb2 0 (by simp); simpa using this
-    have hjra : P[entry j + 1 + size (F j) + 1]? = some ⟨.jmp, none, [.reg Special.ra]⟩ := by have := hb2 1 (by simp); simpa using this
-    have hgood : Good sem ok (F j) := good_mono sem _ ok (fun _ h => h.elim) (F j) hp.good
-    have hleaf : NoCall (F j) := good_false_nocall sem (F j) hp.good
-    obtain ⟨hj1, hra1⟩ := step_jal sem env P st σ base hat lit (entry j) (hlit _) hi
-    obtain ⟨hj2, hra2⟩ := step_nop sem env P _ σ (entry j) hj1 hlab
+    have hbodyOk : ∀ k, (fun i => okP i ∧ rk i < rk j) k → okP k ∧ rk k < rk j := fun k h => h
+    obtain ⟨hj1, hra1⟩ := step_jal sem lo env P st σ base d stk hat lit (entry j) (hlit _) hi
     cases n with
     | zero =>
       refine ⟨fun e σ' h => by simp [exec] at h, fun σ' h => ?_⟩
       simp only [exec, Res.timeout.injEq] at h
       subst h
-      exact ⟨0, base, Nat.le_refl 0, hat⟩
+      exact ⟨0, base, d, stk, Nat.le_refl 0, hat⟩
     | succ m =>
-      have hcl := hprev m rfl (F j) hgood (entry j + 1) 0 0 (entry j + 1 + size (F j)) σ _ hbody hj2
-      constructor
-      · intro e σ' h
-        simp only [exec] at h
-        cases hb : exec sem env F m (F j) σ with
-        | ok e1 σ1 =>
-          rw [hb] at h
-          obtain ⟨k1, h1, hr1⟩ := hcl.1 e1 σ1 hb
-          have hfin : ∀ (hat1 : At (run sem env P k1 (step sem env P (step sem env P st))) σ1 (entry j + 1 + size (F j))),
-              ∃ k, At (run sem env P k st) σ1 (base + 1) := by
-            intro hat1
-            obtain ⟨hn1, hrn1⟩ := step_nop sem env P _ σ1 _ hat1 hend
-            have hraval : sem.toAddr ((step sem env P (run sem env P k1 (step sem env P (step sem env P st)))).regs Special.ra) = some (base + 1) := by
-              rw [hrn1, hr1 hleaf, hra2, hra1, hof]
-            obtain ⟨hn2, _⟩ := step_ret sem env P _ σ1 _ hn1 (base + 1) hraval hjra
-            refine ⟨k1 + 1 + 1 + 1 + 1, ?_⟩
-            have e : run sem env P (k1 + 1 + 1 + 1 + 1) st = run sem env P (k1 + 1 + 1) (step sem env P (step sem env P st)) := rfl
-            rw [e, run_step, run_step]
-            exact hn2
-          cases e1 with
-          | norm =>
-            simp only [Res.done, Res.ok.injEq] at h
-            obtain ⟨rfl, rfl⟩ := h
-            obtain ⟨k, hk⟩ := hfin (by simpa [land] using h1)
-            exact ⟨k, hk, fun hnc => hnc.elim⟩
-          | ret =>
-            simp only [Res.done, Res.ok.injEq] at h
-            obtain ⟨rfl, rfl⟩ := h
-            obtain ⟨k, hk⟩ := hfin (by simpa [land] using h1)
-            exact ⟨k, hk, fun hnc => hnc.elim⟩
-          | brk => simp at h
-          | cont => simp at h
-        | timeout σ1 => rw [hb] at h; simp at h
-        | stuck => rw [hb] at h; simp at h
-      · intro σ' h
-        simp only [exec] at h
-        cases hb : exec sem env F m (F j) σ with
-        | ok e1 σ1 => rw [hb] at h; cases e1 <;> simp [Res.done] at h
-        | timeout σ1 =>
-          rw [hb] at h
-          simp only [Res.timeout.injEq] at h
-          subst h
-          obtain ⟨k1, pc, hle, h1⟩ := hcl.2 σ1 hb
-          refine ⟨k1 + 1 + 1, pc, by omega, ?_⟩
-          exact h1
-        | stuck => rw [hb] at h; simp at h
+      by_cases hcall : hasCall (F j) = true
+      · -- a procedure that calls others: label ; push ra ; body ; end label ; pop ra ; j ra
+        have hblock : CodeAt P (entry j) ([nopI, pushRa] ++ (comp lit entry (F j) (entry j + 2) 0 0 (entry j + 2 + size (F j)) ++ [nopI, popRa, retI])) := by
+          have := hp.code; simp only [compProc, hcall, if_true] at this; simpa [List.append_assoc] using this
+        have hlab : P[entry j]? = some nopI := by have := hblock 0 (by simp); simpa using this
+        have hpush : P[entry j + 1]? = some pushRa := by have := hblock 1 (by simp); simpa using this
+        have hb1 := hblock.right
+        simp only [List.length_cons, List.length_nil] at hb1
+        have hbody : CodeAt P (entry j + 2) (comp lit entry (F j) (entry j + 2) 0 0 (entry j + 2 + size (F j))) := by
+          have := hb1.left; simpa using this
+        have hb2 := hb1.right
+        rw [comp_length] at hb2
+        have hend : P[entry j + 2 + size (F j)]? = some nopI := by
+          have := hb2 0 (by simp); simpa [Nat.add_assoc] using this
+        have hpop : P[entry j + 2 + size (F j) + 1]? = some popRa := by
+          have := hb2 1 (by simp); simpa [Nat.add_assoc] using this
+        have hjra : P[entry j + 2 + size (F j) + 1 + 1]? = some retI := by
+          have := hb2 2 (by simp); simpa [Nat.add_assoc] using this
+        obtain ⟨hj2, hra2⟩ := step_nop sem lo env P _ σ (entry j) d stk hj1 hlab
+        obtain ⟨hj3, hra3⟩ := step_push_ra sem lo env P _ σ (entry j + 1) d stk hof hj2 (by omega) hlo hpush
+        have hrasaved : (step sem env P (step sem env P st)).regs Special.ra = sem.ofNat (base + 1) := by rw [hra2, hra1]
+        rw [hrasaved] at hj3
+        have hcl := hprev m rfl (F j) _ (rk j) hbodyOk hp.good (entry j + 2) 0 0 (entry j + 2 + size (F j)) σ _ (d + 1) _ (by omega) hbody
+          (by have e : entry j + 1 + 1 = entry j + 2 := by omega
+              rw [e] at hj3; exact hj3)
+        have hrun3 : ∀ k (u : St Reg V), run sem env P (k + 1 + 1 + 1) u = run sem env P k (step sem env P (step sem env P (step sem env P u))) := fun k u => rfl
+        constructor
+        · intro e σ' h
+          simp only [exec] at h
+          cases hb : exec sem env F m (F j) σ with
+          | ok e1 σ1 =>
+            rw [hb] at h
+            obtain ⟨k1, h1, _⟩ := hcl.1 e1 σ1 hb
+            have hfin : At sem lo (run sem env P k1 (step sem env P (step sem env P (step sem env P st)))) σ1 (entry j + 2 + size (F j)) (d + 1)
+                (stk ++ [sem.ofNat (base + 1)]) → ∃ k, At sem lo (run sem env P k st) σ1 (base + 1) d stk := by
+              intro hat1
+              obtain ⟨hn1, _⟩ := step_nop sem lo env P _ σ1 _ (d + 1) _ hat1 hend
+              obtain ⟨hn2, hrn2⟩ := step_pop_ra sem lo env P _ σ1 _ d stk hof (sem.ofNat (base + 1)) hn1 (by omega) hlo hpop
+              obtain ⟨hn3, _⟩ := step_ret sem lo env P _ σ1 _ d stk hn2 (base + 1) (by rw [hrn2, hof]) hjra
+              refine ⟨k1 + 1 + 1 + 1 + 1 + 1 + 1, ?_⟩
+              have e : run sem env P (k1 + 1 + 1 + 1 + 1 + 1 + 1) st = run sem env P (k1 + 1 + 1 + 1) (step sem env P (step sem env P (step sem env P st))) := rfl
+              rw [e, run_step, run_step, run_step]
+              exact hn3
+            cases e1 with
+            | norm =>
+              simp only [Res.done, Res.ok.injEq] at h
+              obtain ⟨rfl, rfl⟩ := h
+              obtain ⟨k, hk⟩ := hfin (by simpa [land] using h1)
+              exact ⟨k, hk, fun hnc => hnc.elim⟩
+            | ret =>
+              simp only [Res.done, Res.ok.injEq] at h
+              obtain ⟨rfl, rfl⟩ := h
+              obtain ⟨k, hk⟩ := hfin (by simpa [land] using h1)
+              exact ⟨k, hk, fun hnc => hnc.elim⟩
+            | brk => simp at h
+            | cont => simp at h
+          | timeout σ1 => rw [hb] at h; simp at h
+          | stuck => rw [hb] at h; simp at h
+        · intro σ' h
+          simp only [exec] at h
+          cases hb : exec sem env F m (F j) σ with
+          | ok e1 σ1 => rw [hb] at h; cases e1 <;> simp [Res.done] at h
+          | timeout σ1 =>
+            rw [hb] at h
+            simp only [Res.timeout.injEq] at h
+            subst h
+            obtain ⟨k1, pc, d', stk', hle, h1⟩ := hcl.2 σ1 hb
+            exact ⟨k1 + 1 + 1 + 1, pc, d', stk', by omega, by rw [hrun3]; exact h1⟩
+          | stuck => rw [hb] at h; simp at h
+      · -- a leaf procedure: label ; body ; end label ; j ra
+        have hcall' : hasCall (F j) = false := by simpa using hcall
+        have hleaf : NoCall (F j) := hasCall_false_nocall (F j) hcall'
+        have hblock : CodeAt P (entry j) ([nopI] ++ (comp lit entry (F j) (entry j + 1) 0 0 (entry j + 1 + size (F j)) ++ [nopI, retI])) := by
+          have := hp.code; simp only [compProc, hcall', Bool.false_eq_true, if_false] at this; simpa [List.append_assoc] using this
+        have hlab : P[entry j]? = some nopI := by have := hblock 0 (by simp); simpa using this
+        have hb1 := hblock.right
+        simp only [List.length_singleton] at hb1
+        have hbody := hb1.left
+        have hb2 := hb1.right
+        rw [comp_length] at hb2
+        have hend : P[entry j + 1 + size (F j)]? = some nopI := by have := hb2 0 (by simp); simpa using this
+        have hjra : P[entry j + 1 + size (F j) + 1]? = some retI := by have := hb2 1 (by simp); simpa using this
+        obtain ⟨hj2, hra2⟩ := step_nop sem lo env P _ σ (entry j) d stk hj1 hlab
+        have hcl := hprev m rfl (F j) _ (rk j) hbodyOk hp.good (entry j + 1) 0 0 (entry j + 1 + size (F j)) σ _ d stk (by omega) hbody hj2
+        constructor
+        · intro e σ' h
+          simp only [exec] at h
+          cases hb : exec sem env F m (F j) σ with
+          | ok e1 σ1 =>
+            rw [hb] at h
+            obtain ⟨k1, h1, hr1⟩ := hcl.1 e1 σ1 hb
+            have hfin : At sem lo (run sem env P k1 (step sem env P (step sem env P st))) σ1 (entry j + 1 + size (F j)) d stk →
+                ∃ k, At sem lo (run sem env P k st) σ1 (base + 1) d stk := by
+              intro hat1
+              obtain ⟨hn1, hrn1⟩ := step_nop sem lo env P _ σ1 _ d stk hat1 hend
+              have hraval : sem.toAddr ((step sem env P (run sem env P k1 (step sem env P (step sem env P st)))).regs Special.ra) = some (base + 1) := by
+                rw [hrn1, hr1 hleaf, hra2, hra1, hof]
+              obtain ⟨hn2, _⟩ := step_ret sem lo env P _ σ1 _ d stk hn1 (base + 1) hraval hjra
+              refine ⟨k1 + 1 + 1 + 1 + 1, ?_⟩
+              have e : run sem env P (k1 + 1 + 1 + 1 + 1) st = run sem env P (k1 + 1 + 1) (step sem env P (step sem env P st)) := rfl
+              rw [e, run_step, run_step]
+              exact hn2
+            cases e1 with
+            | norm =>
+              simp only [Res.done, Res.ok.injEq] at h
+              obtain ⟨rfl, rfl⟩ := h
+              obtain ⟨k, hk⟩ := hfin (by simpa [land] using h1)
+              exact ⟨k, hk, fun hnc => hnc.elim⟩
+            | ret =>
+              simp only [Res.done, Res.ok.injEq] at h
+              obtain ⟨rfl, rfl⟩ := h
+              obtain ⟨k, hk⟩ := hfin (by simpa [land] using h1)
+              exact ⟨k, hk, fun hnc => hnc.elim⟩
+            | brk => simp at h
+            | cont => simp at h
+          | timeout σ1 => rw [hb] at h; simp at h
+          | stuck => rw [hb] at h; simp at h
+        · intro σ' h
+          simp only [exec] at h
+          cases hb : exec sem env F m (F j) σ with
+          | ok e1 σ1 => rw [hb] at h; cases e1 <;> simp [Res.done] at h
+          | timeout σ1 =>
+            rw [hb] at h
+            simp only [Res.timeout.injEq] at h
+            subst h
+            obtain ⟨k1, pc, d', stk', hle, h1⟩ := hcl.2 σ1 hb
+            exact ⟨k1 + 1 + 1, pc, d', stk', by omega, h1⟩
+          | stuck => rw [hb] at h; simp at h
   | seq p q ihp ihq =>
-    intro hg base cl bl rl σ st hc hat
+    intro ok b hokb hg base cl bl rl σ st d stk hdb hc hat
     obtain ⟨hgp, hgq⟩ := hg
     simp only [comp] at hc
     have hcp := hc.left
@@ -493,12 +627,12 @@ theorem claim_stmt (hlit : ∀ n, sem.toAddr (lit n) = some n) (hof : ∀ n, sem
       cases hp : exec sem env F n p σ with
       | ok e1 σ1 =>
         rw [hp] at h
-        obtain ⟨k1, h1, hr1⟩ := (ihp hgp base cl bl rl σ st hcp hat).1 e1 σ1 hp
+        obtain ⟨k1, h1, hr1⟩ := (ihp ok b hokb hgp base cl bl rl σ st d stk hdb hcp hat).1 e1 σ1 hp
         cases e1 with
         | norm =>
           simp only [land] at h1
           simp only at h
-          obtain ⟨k2, h2, hr2⟩ := (ihq hgq (base + size p) cl bl rl σ1 _ hcq h1).1 e σ' h
+          obtain ⟨k2, h2, hr2⟩ := (ihq ok b hokb hgq (base + size p) cl bl rl σ1 _ d stk hdb hcq h1).1 e σ' h
           refine ⟨k1 + k2, ?_, fun hnc => ?_⟩
           · rw [run_add, esz]; exact h2
           · rw [run_add, hr2 hnc.2, hr1 hnc.1]
@@ -521,13 +655,13 @@ theorem claim_stmt (hlit : ∀ n, sem.toAddr (lit n) = some n) (hof : ∀ n, sem
       cases hp : exec sem env F n p σ with
       | ok e1 σ1 =>
         rw [hp] at h
-        obtain ⟨k1, h1, hr1⟩ := (ihp hgp base cl bl rl σ st hcp hat).1 e1 σ1 hp
+        obtain ⟨k1, h1, hr1⟩ := (ihp ok b hokb hgp base cl bl rl σ st d stk hdb hcp hat).1 e1 σ1 hp
         cases e1 with
         | norm =>
           simp only [land] at h1
           simp only at h
-          obtain ⟨k2, pc, hle, h2⟩ := (ihq hgq (base + size p) cl bl rl σ1 _ hcq h1).2 σ' h
-          exact ⟨k1 + k2, pc, by omega, by rw [run_add]; exact h2⟩
+          obtain ⟨k2, pc, d', stk', hle, h2⟩ := (ihq ok b hokb hgq (base + size p) cl bl rl σ1 _ d stk hdb hcq h1).2 σ' h
+          exact ⟨k1 + k2, pc, d', stk', by omega, by rw [run_add]; exact h2⟩
         | brk => simp at h
         | cont => simp at h
         | ret => simp at h
@@ -535,10 +669,10 @@ theorem claim_stmt (hlit : ∀ n, sem.toAddr (lit n) = some n) (hof : ∀ n, sem
         rw [hp] at h
         simp only [Res.timeout.injEq] at h
         subst h
-        exact (ihp hgp base cl bl rl σ st hcp hat).2 σ1 hp
+        exact (ihp ok b hokb hgp base cl bl rl σ st d stk hdb hcp hat).2 σ1 hp
       | stuck => rw [hp] at h; simp at h
   | ite c neg args p q ihp ihq =>
-    intro hg base cl bl rl σ st hc hat
+    intro ok b hokb hg base cl bl rl σ st d stk hdb hc hat
     obtain ⟨hneg, hargs, hgp, hgq⟩ := hg
     have hbr : P[base]? = some ⟨.br neg, none, args ++ [.num (lit (base + size p + 2))]⟩ := by
       have := hc 0 (by simp [comp]); simpa [comp] using this
@@ -569,20 +703,20 @@ theorem claim_stmt (hlit : ∀ n, sem.toAddr (lit n) = some n) (hof : ∀ n, sem
       rw [e] at this
       have := this 0 (by simp); simpa using this
     have esz : base + size (Stmt.ite c neg args p q) = base + size p + size q + 3 + 1 := by simp [size]; omega
-    obtain ⟨hb1, rb1⟩ := step_br sem env P st σ base hat lit neg args (base + size p + 2) (hlit _) hargs hbr
+    obtain ⟨hb1, rb1⟩ := step_br sem lo env P st σ base d stk hat lit neg args (base + size p + 2) (hlit _) hargs hbr
     rw [hneg _ (by simp [evalArgs])] at hb1
     by_cases hb : sem.cond c (evalArgs σ.regs args) = true
     · simp only [hb, Bool.not_true, Bool.false_eq_true, if_false] at hb1
       constructor
       · intro e σ' h
         simp only [exec, hb, if_true] at h
-        obtain ⟨k1, hk1, hr1⟩ := (ihp hgp (base + 1) cl bl rl σ _ hcp hb1).1 e σ' h
+        obtain ⟨k1, hk1, hr1⟩ := (ihp ok b hokb hgp (base + 1) cl bl rl σ _ d stk hdb hcp hb1).1 e σ' h
         have hrun : ∀ k, run sem env P (k + 1) st = run sem env P k (step sem env P st) := fun k => rfl
         cases e with
         | norm =>
           simp only [land] at hk1
-          obtain ⟨hj, rj⟩ := step_jmp sem env P _ σ' _ hk1 lit _ (hlit _) hjmp
-          obtain ⟨he, re⟩ := step_nop sem env P _ σ' _ hj hend
+          obtain ⟨hj, rj⟩ := step_jmp sem lo env P _ σ' _ d stk hk1 lit _ (hlit _) hjmp
+          obtain ⟨he, re⟩ := step_nop sem lo env P _ σ' _ d stk hj hend
           refine ⟨k1 + 1 + 1 + 1, ?_, fun hnc => ?_⟩
           · rw [hrun, run_step, run_step]; simp only [land]; rw [esz]; exact he
           · rw [hrun, run_step, run_step, re, rj, hr1 hnc.1, rb1]
@@ -591,24 +725,24 @@ theorem claim_stmt (hlit : ∀ n, sem.toAddr (lit n) = some n) (hof : ∀ n, sem
         | ret => exact ⟨k1 + 1, by rw [hrun]; exact hk1, fun hnc => by rw [hrun, hr1 hnc.1, rb1]⟩
       · intro σ' h
         simp only [exec, hb, if_true] at h
-        obtain ⟨k1, pc, hle, hk1⟩ := (ihp hgp (base + 1) cl bl rl σ _ hcp hb1).2 σ' h
-        exact ⟨k1 + 1, pc, by omega, hk1⟩
+        obtain ⟨k1, pc, d', stk', hle, hk1⟩ := (ihp ok b hokb hgp (base + 1) cl bl rl σ _ d stk hdb hcp hb1).2 σ' h
+        exact ⟨k1 + 1, pc, d', stk', by omega, hk1⟩
     · have hb' : sem.cond c (evalArgs σ.regs args) = false := by simpa using hb
       simp only [hb', Bool.not_false, if_true] at hb1
-      obtain ⟨hl1, rl1⟩ := step_nop sem env P _ σ _ hb1 helse
+      obtain ⟨hl1, rl1⟩ := step_nop sem lo env P _ σ _ d stk hb1 helse
       have e3 : base + size p + 2 + 1 = base + size p + 3 := by omega
       rw [e3] at hl1
       have hrun2 : ∀ k, run sem env P (k + 1 + 1) st = run sem env P k (step sem env P (step sem env P st)) := fun k => rfl
       constructor
       · intro e σ' h
         simp only [exec, hb', Bool.false_eq_true, if_false] at h
-        obtain ⟨k1, hk1, hr1⟩ := (ihq hgq (base + size p + 3) cl bl rl σ _ hcq hl1).1 e σ' h
+        obtain ⟨k1, hk1, hr1⟩ := (ihq ok b hokb hgq (base + size p + 3) cl bl rl σ _ d stk hdb hcq hl1).1 e σ' h
         cases e with
         | norm =>
           simp only [land] at hk1
           have e4 : base + size p + 3 + size q = base + size p + size q + 3 := by omega
           rw [e4] at hk1
-          obtain ⟨he, re⟩ := step_nop sem env P _ σ' _ hk1 hend
+          obtain ⟨he, re⟩ := step_nop sem lo env P _ σ' _ d stk hk1 hend
           refine ⟨k1 + 1 + 1 + 1, ?_, fun hnc => ?_⟩
           · have : run sem env P (k1 + 1 + 1 + 1) st = run sem env P (k1 + 1) (step sem env P (step sem env P st)) := rfl
             rw [this, run_step]; simp only [land]; rw [esz]; exact he
@@ -619,10 +753,10 @@ theorem claim_stmt (hlit : ∀ n, sem.toAddr (lit n) = some n) (hof : ∀ n, sem
         | ret => exact ⟨k1 + 1 + 1, by rw [hrun2]; exact hk1, fun hnc => by rw [hrun2, hr1 hnc.2, rl1, rb1]⟩
       · intro σ' h
         simp only [exec, hb', Bool.false_eq_true, if_false] at h
-        obtain ⟨k1, pc, hle, hk1⟩ := (ihq hgq (base + size p + 3) cl bl rl σ _ hcq hl1).2 σ' h
-        exact ⟨k1 + 1 + 1, pc, by omega, hk1⟩
+        obtain ⟨k1, pc, d', stk', hle, hk1⟩ := (ihq ok b hokb hgq (base + size p + 3) cl bl rl σ _ d stk hdb hcq hl1).2 σ' h
+        exact ⟨k1 + 1 + 1, pc, d', stk', by omega, hk1⟩
   | ifThen c neg args p ihp =>
-    intro hg base cl bl rl σ st hc hat
+    intro ok b hokb hg base cl bl rl σ st d stk hdb hc hat
     obtain ⟨hneg, hargs, hgp⟩ := hg
     have hbr : P[base]? = some ⟨.br neg, none, args ++ [.num (lit (base + size p + 1))]⟩ := by
       have := hc 0 (by simp [comp]); simpa [comp] using this
@@ -636,7 +770,7 @@ theorem claim_stmt (hlit : ∀ n, sem.toAddr (lit n) = some n) (hof : ∀ n, sem
     have hl1 : P[base + 1 + size p]? = some nopI := by have := h2 0 (by simp); simpa using this
     have hl2 : P[base + 1 + size p + 1]? = some nopI := by have := h2 1 (by simp); simpa using this
     have esz : base + size (Stmt.ifThen c neg args p) = base + 1 + size p + 1 + 1 := by simp [size]; omega
-    obtain ⟨hb1, rb1⟩ := step_br sem env P st σ base hat lit neg args (base + size p + 1) (hlit _) hargs hbr
+    obtain ⟨hb1, rb1⟩ := step_br sem lo env P st σ base d stk hat lit neg args (base + size p + 1) (hlit _) hargs hbr
     rw [hneg _ (by simp [evalArgs])] at hb1
     have hrun : ∀ k, run sem env P (k + 1) st = run sem env P k (step sem env P st) := fun k => rfl
     by_cases hb : sem.cond c (evalArgs σ.regs args) = true
@@ -644,12 +778,12 @@ theorem claim_stmt (hlit : ∀ n, sem.toAddr (lit n) = some n) (hof : ∀ n, sem
       constructor
       · intro e σ' h
         simp only [exec, hb, if_true] at h
-        obtain ⟨k1, hk1, hr1⟩ := (ihp hgp (base + 1) cl bl rl σ _ hcp hb1).1 e σ' h
+        obtain ⟨k1, hk1, hr1⟩ := (ihp ok b hokb hgp (base + 1) cl bl rl σ _ d stk hdb hcp hb1).1 e σ' h
         cases e with
         | norm =>
           simp only [land] at hk1
-          obtain ⟨hn1, rn1⟩ := step_nop sem env P _ σ' _ hk1 hl1
-          obtain ⟨hn2, rn2⟩ := step_nop sem env P _ σ' _ hn1 hl2
+          obtain ⟨hn1, rn1⟩ := step_nop sem lo env P _ σ' _ d stk hk1 hl1
+          obtain ⟨hn2, rn2⟩ := step_nop sem lo env P _ σ' _ d stk hn1 hl2
           refine ⟨k1 + 1 + 1 + 1, ?_, fun hnc => ?_⟩
           · rw [hrun, run_step, run_step]; simp only [land]; rw [esz]; exact hn2
           · rw [hrun, run_step, run_step, rn2, rn1, hr1 hnc, rb1]
@@ -658,14 +792,14 @@ theorem claim_stmt (hlit : ∀ n, sem.toAddr (lit n) = some n) (hof : ∀ n, sem
         | ret => exact ⟨k1 + 1, by rw [hrun]; exact hk1, fun hnc => by rw [hrun, hr1 hnc, rb1]⟩
       · intro σ' h
         simp only [exec, hb, if_true] at h
-        obtain ⟨k1, pc, hle, hk1⟩ := (ihp hgp (base + 1) cl bl rl σ _ hcp hb1).2 σ' h
-        exact ⟨k1 + 1, pc, by omega, hk1⟩
+        obtain ⟨k1, pc, d', stk', hle, hk1⟩ := (ihp ok b hokb hgp (base + 1) cl bl rl σ _ d stk hdb hcp hb1).2 σ' h
+        exact ⟨k1 + 1, pc, d', stk', by omega, hk1⟩
     · have hb' : sem.cond c (evalArgs σ.regs args) = false := by simpa using hb
       simp only [hb', Bool.not_false, if_true] at hb1
       have e1 : base + size p + 1 = base + 1 + size p := by omega
       rw [e1] at hb1
-      obtain ⟨hn1, rn1⟩ := step_nop sem env P _ σ _ hb1 hl1
-      obtain ⟨hn2, rn2⟩ := step_nop sem env P _ σ _ hn1 hl2
+      obtain ⟨hn1, rn1⟩ := step_nop sem lo env P _ σ _ d stk hb1 hl1
+      obtain ⟨hn2, rn2⟩ := step_nop sem lo env P _ σ _ d stk hn1 hl2
       constructor
       · intro e σ' h
         simp only [exec, hb', Bool.false_eq_true, if_false, Res.done, Res.ok.injEq] at h
@@ -678,7 +812,7 @@ theorem claim_stmt (hlit : ∀ n, sem.toAddr (lit n) = some n) (hof : ∀ n, sem
       · intro σ' h
         simp [exec, hb'] at h
   | «while» c neg args body ih =>
-    intro hg base cl bl rl σ st hc hat
+    intro ok b hokb hg base cl bl rl σ st d stk hdb hc hat
     obtain ⟨hneg, hargs, hgb⟩ := hg
     have hcode : CodeAt P base ([nopI] ++ ([⟨.br neg, none, args ++ [.num (lit (base + size body + 3))]⟩] ++
         (comp lit entry body (base + 2) base (base + size body + 3) rl ++ [⟨.jmp, none, [.num (lit base)]⟩, nopI]))) := by
@@ -711,17 +845,17 @@ theorem claim_stmt (hlit : ∀ n, sem.toAddr (lit n) = some n) (hof : ∀ n, sem
       refine ⟨fun e σ' h => by simp [exec] at h, fun σ' h => ?_⟩
       simp only [exec, Res.timeout.injEq] at h
       subst h
-      exact ⟨0, base, Nat.le_refl 0, hat⟩
+      exact ⟨0, base, d, stk, Nat.le_refl 0, hat⟩
     | succ m =>
-      have hw := hprev m rfl (.while c neg args body) ⟨hneg, hargs, hgb⟩ base cl bl rl
-      obtain ⟨hl1, rl1⟩ := step_nop sem env P st σ base hat hlab
-      obtain ⟨hb1, rb1⟩ := step_br sem env P _ σ (base + 1) hl1 lit neg args (base + size body + 3) (hlit _) hargs hbr
+      have hw := hprev m rfl (.while c neg args body) ok b hokb ⟨hneg, hargs, hgb⟩ base cl bl rl
+      obtain ⟨hl1, rl1⟩ := step_nop sem lo env P st σ base d stk hat hlab
+      obtain ⟨hb1, rb1⟩ := step_br sem lo env P _ σ (base + 1) d stk hl1 lit neg args (base + size body + 3) (hlit _) hargs hbr
       rw [hneg _ (by simp [evalArgs])] at hb1
       by_cases hb : sem.cond c (evalArgs σ.regs args) = true
       · simp only [hb, Bool.not_true, Bool.false_eq_true, if_false] at hb1
         have e2 : base + 1 + 1 = base + 2 := by omega
         rw [e2] at hb1
-        have hbd := ih hgb (base + 2) base (base + size body + 3) rl σ _ hbody hb1
+        have hbd := ih ok b hokb hgb (base + 2) base (base + size body + 3) rl σ _ d stk hdb hbody hb1
         constructor
         · intro e σ' h
           simp only [exec] at h
@@ -734,8 +868,8 @@ theorem claim_stmt (hlit : ∀ n, sem.toAddr (lit n) = some n) (hof : ∀ n, sem
             | norm =>
               simp only [land] at hk1
               simp only at h
-              obtain ⟨hj, rj⟩ := step_jmp sem env P _ σ1 _ hk1 lit base (hlit _) hjmp
-              obtain ⟨k2, hk2, hr2⟩ := (hw σ1 _ hc hj).1 e σ' h
+              obtain ⟨hj, rj⟩ := step_jmp sem lo env P _ σ1 _ d stk hk1 lit base (hlit _) hjmp
+              obtain ⟨k2, hk2, hr2⟩ := (hw σ1 _ d stk hdb hc hj).1 e σ' h
               refine ⟨k1 + 1 + k2 + 1 + 1, ?_, fun hnc => ?_⟩
               · have : run sem env P (k1 + 1 + k2 + 1 + 1) st = run sem env P (k1 + 1 + k2) (step sem env P (step sem env P st)) := rfl
                 rw [this, run_add, run_step]; exact hk2
@@ -744,7 +878,7 @@ theorem claim_stmt (hlit : ∀ n, sem.toAddr (lit n) = some n) (hof : ∀ n, sem
             | cont =>
               simp only [land] at hk1
               simp only at h
-              obtain ⟨k2, hk2, hr2⟩ := (hw σ1 _ hc hk1).1 e σ' h
+              obtain ⟨k2, hk2, hr2⟩ := (hw σ1 _ d stk hdb hc hk1).1 e σ' h
               refine ⟨k1 + k2 + 1 + 1, ?_, fun hnc => ?_⟩
               · have : run sem env P (k1 + k2 + 1 + 1) st = run sem env P (k1 + k2) (step sem env P (step sem env P st)) := rfl
                 rw [this, run_add]; exact hk2
@@ -754,7 +888,7 @@ theorem claim_stmt (hlit : ∀ n, sem.toAddr (lit n) = some n) (hof : ∀ n, sem
               simp only [land] at hk1
               simp only [Res.done, Res.ok.injEq] at h
               obtain ⟨rfl, rfl⟩ := h
-              obtain ⟨he, re⟩ := step_nop sem env P _ σ1 _ hk1 hend
+              obtain ⟨he, re⟩ := step_nop sem lo env P _ σ1 _ d stk hk1 hend
               refine ⟨k1 + 1 + 1 + 1, ?_, fun hnc => ?_⟩
               · have : run sem env P (k1 + 1 + 1 + 1) st = run sem env P (k1 + 1) (step sem env P (step sem env P st)) := rfl
                 rw [this, run_step]; simp only [land]; rw [esz]; exact he
@@ -780,16 +914,16 @@ theorem claim_stmt (hlit : ∀ n, sem.toAddr (lit n) = some n) (hof : ∀ n, sem
             | norm =>
               simp only [land] at hk1
               simp only at h
-              obtain ⟨hj, rj⟩ := step_jmp sem env P _ σ1 _ hk1 lit base (hlit _) hjmp
-              obtain ⟨k2, pc, hle, hk2⟩ := (hw σ1 _ hc hj).2 σ' h
-              refine ⟨k1 + 1 + k2 + 1 + 1, pc, by omega, ?_⟩
+              obtain ⟨hj, rj⟩ := step_jmp sem lo env P _ σ1 _ d stk hk1 lit base (hlit _) hjmp
+              obtain ⟨k2, pc, d', stk', hle, hk2⟩ := (hw σ1 _ d stk hdb hc hj).2 σ' h
+              refine ⟨k1 + 1 + k2 + 1 + 1, pc, d', stk', by omega, ?_⟩
               have : run sem env P (k1 + 1 + k2 + 1 + 1) st = run sem env P (k1 + 1 + k2) (step sem env P (step sem env P st)) := rfl
               rw [this, run_add, run_step]; exact hk2
             | cont =>
               simp only [land] at hk1
               simp only at h
-              obtain ⟨k2, pc, hle, hk2⟩ := (hw σ1 _ hc hk1).2 σ' h
-              refine ⟨k1 + k2 + 1 + 1, pc, by omega, ?_⟩
+              obtain ⟨k2, pc, d', stk', hle, hk2⟩ := (hw σ1 _ d stk hdb hc hk1).2 σ' h
+              refine ⟨k1 + k2 + 1 + 1, pc, d', stk', by omega, ?_⟩
               have : run sem env P (k1 + k2 + 1 + 1) st = run sem env P (k1 + k2) (step sem env P (step sem env P st)) := rfl
               rw [this, run_add]; exact hk2
             | brk => simp [Res.done] at h
@@ -798,12 +932,12 @@ theorem claim_stmt (hlit : ∀ n, sem.toAddr (lit n) = some n) (hof : ∀ n, sem
             rw [hx] at h
             simp only [Res.timeout.injEq] at h
             subst h
-            obtain ⟨k1, pc, hle, hk1⟩ := hbd.2 σ1 hx
-            exact ⟨k1 + 1 + 1, pc, by omega, by rw [hrun2]; exact hk1⟩
+            obtain ⟨k1, pc, d', stk', hle, hk1⟩ := hbd.2 σ1 hx
+            exact ⟨k1 + 1 + 1, pc, d', stk', by omega, by rw [hrun2]; exact hk1⟩
           | stuck => rw [hx] at h; simp at h
       · have hb' : sem.cond c (evalArgs σ.regs args) = false := by simpa using hb
         simp only [hb', Bool.not_false, if_true] at hb1
-        obtain ⟨he, re⟩ := step_nop sem env P _ σ _ hb1 hend
+        obtain ⟨he, re⟩ := step_nop sem lo env P _ σ _ d stk hb1 hend
         constructor
         · intro e σ' h
           simp only [exec] at h
@@ -820,7 +954,7 @@ theorem claim_stmt (hlit : ∀ n, sem.toAddr (lit n) = some n) (hof : ∀ n, sem
           rw [if_neg hb] at h
           simp [Res.done] at h
   | loop body ih =>
-    intro hgb base cl bl rl σ st hc hat
+    intro ok b hokb hgb base cl bl rl σ st d stk hdb hc hat
     have hcode : CodeAt P base ([nopI] ++ (comp lit entry body (base + 1) base (base + size body + 2) rl ++ [⟨.jmp, none, [.num (lit base)]⟩, nopI])) := by
       simpa [comp, List.append_assoc] using hc
     have hlab : P[base]? = some nopI := by have := hcode 0 (by simp); simpa using this
@@ -842,11 +976,11 @@ theorem claim_stmt (hlit : ∀ n, sem.toAddr (lit n) = some n) (hof : ∀ n, sem
       refine ⟨fun e σ' h => by simp [exec] at h, fun σ' h => ?_⟩
       simp only [exec, Res.timeout.injEq] at h
       subst h
-      exact ⟨0, base, Nat.le_refl 0, hat⟩
+      exact ⟨0, base, d, stk, Nat.le_refl 0, hat⟩
     | succ m =>
-      have hw := hprev m rfl (.loop body) hgb base cl bl rl
-      obtain ⟨hl1, rl1⟩ := step_nop sem env P st σ base hat hlab
-      have hbd := ih hgb (base + 1) base (base + size body + 2) rl σ _ hbody hl1
+      have hw := hprev m rfl (.loop body) ok b hokb hgb base cl bl rl
+      obtain ⟨hl1, rl1⟩ := step_nop sem lo env P st σ base d stk hat hlab
+      have hbd := ih ok b hokb hgb (base + 1) base (base + size body + 2) rl σ _ d stk hdb hbody hl1
       constructor
       · intro e σ' h
         simp only [exec] at h
@@ -858,15 +992,15 @@ theorem claim_stmt (hlit : ∀ n, sem.toAddr (lit n) = some n) (hof : ∀ n, sem
           | norm =>
             simp only [land] at hk1
             simp only at h
-            obtain ⟨hj, rj⟩ := step_jmp sem env P _ σ1 _ hk1 lit base (hlit _) hjmp
-            obtain ⟨k2, hk2, hr2⟩ := (hw σ1 _ hc hj).1 e σ' h
+            obtain ⟨hj, rj⟩ := step_jmp sem lo env P _ σ1 _ d stk hk1 lit base (hlit _) hjmp
+            obtain ⟨k2, hk2, hr2⟩ := (hw σ1 _ d stk hdb hc hj).1 e σ' h
             refine ⟨k1 + 1 + k2 + 1, ?_, fun hnc => ?_⟩
             · rw [hrun1, run_add, run_step]; exact hk2
             · rw [hrun1, run_add, run_step, hr2 hnc, rj, hr1 hnc, rl1]
           | cont =>
             simp only [land] at hk1
             simp only at h
-            obtain ⟨k2, hk2, hr2⟩ := (hw σ1 _ hc hk1).1 e σ' h
+            obtain ⟨k2, hk2, hr2⟩ := (hw σ1 _ d stk hdb hc hk1).1 e σ' h
             refine ⟨k1 + k2 + 1, ?_, fun hnc => ?_⟩
             · rw [hrun1, run_add]; exact hk2
             · rw [hrun1, run_add, hr2 hnc, hr1 hnc, rl1]
@@ -874,7 +1008,7 @@ theorem claim_stmt (hlit : ∀ n, sem.toAddr (lit n) = some n) (hof : ∀ n, sem
             simp only [land] at hk1
             simp only [Res.done, Res.ok.injEq] at h
             obtain ⟨rfl, rfl⟩ := h
-            obtain ⟨he, re⟩ := step_nop sem env P _ σ1 _ hk1 hend
+            obtain ⟨he, re⟩ := step_nop sem lo env P _ σ1 _ d stk hk1 hend
             refine ⟨k1 + 1 + 1, ?_, fun hnc => ?_⟩
             · rw [hrun1, run_step]; simp only [land]; rw [esz]; exact he
             · rw [hrun1, run_step, re, hr1 hnc, rl1]
@@ -897,15 +1031,15 @@ theorem claim_stmt (hlit : ∀ n, sem.toAddr (lit n) = some n) (hof : ∀ n, sem
           | norm =>
             simp only [land] at hk1
             simp only at h
-            obtain ⟨hj, rj⟩ := step_jmp sem env P _ σ1 _ hk1 lit base (hlit _) hjmp
-            obtain ⟨k2, pc, hle, hk2⟩ := (hw σ1 _ hc hj).2 σ' h
-            refine ⟨k1 + 1 + k2 + 1, pc, by omega, ?_⟩
+            obtain ⟨hj, rj⟩ := step_jmp sem lo env P _ σ1 _ d stk hk1 lit base (hlit _) hjmp
+            obtain ⟨k2, pc, d', stk', hle, hk2⟩ := (hw σ1 _ d stk hdb hc hj).2 σ' h
+            refine ⟨k1 + 1 + k2 + 1, pc, d', stk', by omega, ?_⟩
             rw [hrun1, run_add, run_step]; exact hk2
           | cont =>
             simp only [land] at hk1
             simp only at h
-            obtain ⟨k2, pc, hle, hk2⟩ := (hw σ1 _ hc hk1).2 σ' h
-            refine ⟨k1 + k2 + 1, pc, by omega, ?_⟩
+            obtain ⟨k2, pc, d', stk', hle, hk2⟩ := (hw σ1 _ d stk hdb hc hk1).2 σ' h
+            refine ⟨k1 + k2 + 1, pc, d', stk', by omega, ?_⟩
             rw [hrun1, run_add]; exact hk2
           | brk => simp [Res.done] at h
           | ret => simp at h
@@ -913,19 +1047,19 @@ theorem claim_stmt (hlit : ∀ n, sem.toAddr (lit n) = some n) (hof : ∀ n, sem
           rw [hx] at h
           simp only [Res.timeout.injEq] at h
           subst h
-          obtain ⟨k1, pc, hle, hk1⟩ := hbd.2 σ1 hx
-          exact ⟨k1 + 1, pc, by omega, by rw [hrun1]; exact hk1⟩
+          obtain ⟨k1, pc, d', stk', hle, hk1⟩ := hbd.2 σ1 hx
+          exact ⟨k1 + 1, pc, d', stk', by omega, by rw [hrun1]; exact hk1⟩
         | stuck => rw [hx] at h; simp at h
 
 /-- the simulation for every fuel -/
-theorem sim (hlit : ∀ n, sem.toAddr (lit n) = some n) (hof : ∀ n, sem.toAddr (sem.ofNat n) = some n)
-    (ok : Nat → Prop) (hok : ∀ k, ok k → ProcOk sem lit entry F P k) :
-    ∀ n s, Good sem ok s → Claim sem env lit entry F P n s := by
+theorem sim (hlit : ∀ n, sem.toAddr (lit n) = some n) (hof : ∀ n, sem.toAddr (sem.ofNat n) = some n) (hlo : lo ≤ stackSize)
+    (hokP : ∀ k, okP k → ProcOk sem lo lit entry F P rk okP k) :
+    ∀ n s, Claim sem lo env lit entry F P rk okP n s := by
   intro n
   induction n with
-  | zero => exact claim_stmt sem env lit entry F P hlit hof ok hok 0 (by intro m h; omega)
+  | zero => exact claim_stmt sem lo env lit entry F P rk okP hlit hof hlo hokP 0 (by intro m h; omega)
   | succ n ih =>
-    refine claim_stmt sem env lit entry F P hlit hof ok hok (n + 1) ?_
+    refine claim_stmt sem lo env lit entry F P rk okP hlit hof hlo hokP (n + 1) ?_
     intro m h
     have hm : m = n := by omega
     subst hm
